@@ -590,7 +590,14 @@ func (e *FnEnc) loopHeader(b *ssa.BasicBlock, li *loopInfo, fwd []*ssa.BasicBloc
 					continue
 				}
 				if ia, ok := root.(*ssa.IndexAddr); ok {
-					if _, isSl := ia.X.Type().Underlying().(*types.Slice); isSl {
+					if slt, isSl := ia.X.Type().Underlying().(*types.Slice); isSl {
+						// an element store through a slice value that exists before the loop: that backing array is a target
+						if def, isInstr := ia.X.(ssa.Instruction); !isInstr || !li.blocks[def.Block()] {
+							if sv, ok := e.vals[ia.X]; ok && sv.T != "" {
+								hn := e.sorts().ArrHeap(slt.Elem()).Name
+								li.modRefs[hn] = append(li.modRefs[hn], modT{ref: sx("sref", sv.T)})
+							}
+						}
 						break
 					}
 					root = ia.X
